@@ -230,6 +230,11 @@ impl<'a, F: Family> Cx<'a, F> {
             off_seen: false,
             observed: Vec::new(),
             fams: 0,
+            val_tracked: match class {
+                Class::Q => F::Q::TRACKED,
+                _ => F::P::TRACKED,
+            },
+            hdr_tracked: F::H::TRACKED,
         }
     }
     pub fn push_alloc(&self, a: AllocM) -> usize {
@@ -475,6 +480,8 @@ fn post_check<F: Family>(env: &Env<F>, par: bool, t: usize, mark: usize, op: &Op
                     off_seen: true,
                     observed: Vec::new(),
                     fams: 0,
+                    val_tracked: false,
+                    hdr_tracked: false,
                 })
             });
         }
